@@ -85,6 +85,25 @@ def handle (case impl : List String) : Verdict :=
       let v := v.withSpec (n an == 0 || n bn == 0) "cull-off-dropped" "with culling off one vertex order drew nothing"
       let v := v.withSpec ((n ab > 0 && n ab != n an) || (n bb > 0 && n bb != n bn)) "cull-changes-image"
         "the surviving order draws a different pixel set than with culling off"
+      -- which order survives is decided by the on-screen winding of the VISIBLE part, i.e. by the side of
+      -- the triangle's plane the eye is on: the sign of det [x y w] of the clip-space vertices (times the
+      -- orientation of the viewport), also when vertices lie behind the eye (independent of the clipper)
+      let cv := (clipVerts s io).map (·.1)
+      let v := match s.tris with
+        | [(i, j, l)] =>
+          match cv[i]?, cv[j]?, cv[l]? with
+          | some a, some b, some c =>
+            let det3 := a.x * (b.y * c.w - b.w * c.y) - a.y * (b.x * c.w - b.w * c.x) + a.w * (b.x * c.y - b.y * c.x)
+            let (vl, vt, vr, vb) := s.vp
+            let orient := (((vr : Int) - vl) * ((vb : Int) - vt) : Int)
+            let scale := ratMax (ratAbs a.w) (ratMax (ratAbs b.w) (ratAbs c.w))
+            let backA := (0 : Rat) < det3 * (orient : Rat)
+            if ratAbs det3 < scale * scale * scale / 1000 || orient == 0 then v
+            else
+              v.withSpec ((n ab > 0) == backA) "cull-wrong-side"
+                s!"back-face culling kept the order whose visible part is {if backA then "back" else "front"}-facing on screen (det[x y w] = {ratApprox det3}); drawn pixels A/back-cull {n ab}, B/back-cull {n bb}"
+          | _, _, _ => v
+        | _ => v
       let pts := chunks 2 8 (rest.map n)
       let offBand := pts.any fun p => match p with | [x, y] => !edge x y | _ => false
       let v := v.withSpec (n ndiff > 0 && offBand) "orders-differ-off-edge" "the two vertex orders differ away from edge pixels with culling off"
